@@ -28,21 +28,21 @@ def protoMapReview : List ((String × String × String × List String) × String
     "stored by SetAVSInfo under KeyPrefixAVSInfo; never populated (no writer; the msg handlers RegisterAVS/DeRegisterAVS are unimplemented, x/avs InitGenesis ignores its state): 0 entries, one encoding"),
   (("x/delegation/types/query.pb.go", "QueryDelegationInfoResponse.DelegationInfos", "range-unsorted", ["query"]),
     "built by GetDelegationInfo; marshalled only by the gRPC query server; its in-memory use in x/assets GetStakerSpecifiedAssetInfo is a sum (mapRangeSites, shape A)"),
-  (("x/oracle/types/info.pb.go", "Endpoint.Offchain", "range-unsorted", ["genesis", "msg", "query", "store"]),
-    "F-08b: part of the stored oracle Params (ParamsKey, RecentParams); a source with 2+ entries arrives through the genesis file; every later SetParams re-marshals it"),
-  (("x/oracle/types/info.pb.go", "Endpoint.Onchain", "range-unsorted", ["genesis", "msg", "query", "store"]),
-    "F-08b: as Endpoint.Offchain")]
+  (("x/oracle/types/info.pb.go", "Endpoint.Offchain", "sorted-keys", ["genesis", "msg", "query", "store"]),
+    "part of the stored oracle Params (ParamsKey, RecentParams); stable marshaller since the repair of F-08b: C08_sorted_map_encoding_is_function_of_content"),
+  (("x/oracle/types/info.pb.go", "Endpoint.Onchain", "sorted-keys", ["genesis", "msg", "query", "store"]),
+    "as Endpoint.Offchain")]
 
 theorem C08_tie_proto_map_fields_reviewed : protoMapFields = protoMapReview.map (·.1) := by decide
 
 /-- a message whose bytes reach consensus state: written to a KV store or returned in a tx result -/
 def consensusUse (u : List String) : Bool := u.contains "store" || u.contains "tx-result"
 
-/-- the unsorted map fields of consensus-relevant messages are exactly these three: the two of F-08b and
-the unpopulated AVS field -/
+/-- the only unsorted map field of a consensus-relevant message is the unpopulated AVS field (the
+oracle's Endpoint maps are marshalled in key order since the repair of F-08b) -/
 theorem C08_tie_unsorted_consensus_map_fields :
     (protoMapFields.filter (fun f => f.2.2.1 == "range-unsorted" && consensusUse f.2.2.2)).map (·.2.1)
-      = ["AVSInfo.AssetRewardAmountEpochBasis", "Endpoint.Offchain", "Endpoint.Onchain"] := by decide
+      = ["AVSInfo.AssetRewardAmountEpochBasis"] := by decide
 
 /-- who puts entries into a proto map field in consensus code: nobody into the AVS field; the oracle
 endpoints only the one-entry default (`literal:1`); the delegation query response is not stored -/
